@@ -475,13 +475,17 @@ def antichain_network(prog: Program, rep, RID: str):
     kws = {k.arg: k.value for k in call.keywords}
     if "l" not in kws or "c" not in kws:
         raise AnalysisError("compute_max_edge_antichain: lower bound `l` / cost `c` of the network edges not found")
-    has_w = B.parse(ast.parse("weight_function", mode="eval").body)
+    has_w = B.parse(ast.parse("weight_function is not None", mode="eval").body)
+    truthy_atoms = B.atoms_of(B.parse(ast.parse("weight_function", mode="eval").body))
     inner = B.parse(ast.parse("U != self.source and V != self.sink", mode="eval").body)
     key = "stDAG.compute_max_edge_antichain:demand"
     problems = []
     for g, x in expr_cases(kws["l"]):
         txt = norm(x)
-        if B.implies(g, has_w) and B.satisfiable(g):
+        if B.atoms_of(g) & truthy_atoms:
+            problems.append("the demand is chosen by the truth value of weight_function: an empty weight function (every edge ignored - all weights 0, "
+                            "as get_width builds it) is treated like no weight function and the width of the full graph comes back")
+        elif B.implies(g, has_w) and B.satisfiable(g):
             if txt not in ("weight_function.get((U, V), 0)", "weight_function.get((U, V), 0.0)"):
                 problems.append(f"with a weight function the demand of (u, v) is `{txt}` (must be the caller's weight, 0 if missing)")
         elif B.implies(g, B.mk_not(has_w)):
